@@ -43,6 +43,11 @@ var vhC13Corpus = []vhTpl{
 	{"adjacent-if", []string{"a", "", "", "c"}, []vhTag{{true, "if x"}, {false, "x"}, {true, "endif"}}},
 	{"adjacent-for-end", []string{"a", "i", "", "c"}, []vhTag{{true, "for i in xs"}, {true, "endfor"}, {false, "x"}}},
 	{"comment-between", []string{"a", "{##}", "c"}, []vhTag{{false, "x"}, {false, "x"}}},
+	// text that starts or ends with a backslash-escaped opener (literal text for the tokenizers)
+	{"escaped-after", []string{"a", "\\{{ n }}b"}, []vhTag{{false, "x"}}},
+	{"escaped-before", []string{"a\\{% n %}", "b"}, []vhTag{{false, "x"}}},
+	{"escaped-between", []string{"a", "\\{{ n }}", "c"}, []vhTag{{true, "if x"}, {true, "endif"}}},
+	{"escaped-comment", []string{"a", "\\{# n #} b"}, []vhTag{{true, "set v = 1"}}},
 }
 
 func vhOpen(t vhTag, dash bool) string {
